@@ -162,14 +162,32 @@ func litVal(v *big.Int) Val {
 }
 
 func (g *FnGen) selectFieldIdx(x Val, idx int, st State) Val {
+	if x.PlaceLost {
+		efail("field of a pointer whose target differs between control-flow paths")
+	}
+	if stT, s := derefStruct(x.Go); stT != nil && x.Place != nil {
+		// the pointer designates a struct stored at a known place (slice element, nested field)
+		sv := g.loadPlace(st, x.Place)
+		info := g.D.structInfo[g.D.sortOf(stT)]
+		v := g.mkVal("("+info.fields[idx]+" "+sv+")", s.Field(idx).Type())
+		return v
+	}
 	if stT, s := derefStruct(x.Go); stT != nil {
 		k, _ := g.D.fieldKey(stT, idx)
 		ft := s.Field(idx).Type()
-		return g.mkVal(g.hsel(g.D.get(st, k), x.T), ft)
+		v := g.mkVal(g.hsel(g.D.get(st, k), x.T), ft)
+		if (v.S == sortSlice || v.S == sortStr) && !strings.Contains(v.T, "q_") {
+			g.assume("true", g.wfFacts(v), "type") // every slice/string value is well-formed
+		}
+		return v
 	}
 	if s, ok := x.Go.Underlying().(*types.Struct); ok {
 		info := g.D.structInfo[g.D.sortOf(x.Go)]
-		return g.mkVal("("+info.fields[idx]+" "+x.T+")", s.Field(idx).Type())
+		v := g.mkVal("("+info.fields[idx]+" "+x.T+")", s.Field(idx).Type())
+		if (v.S == sortSlice || v.S == sortStr) && !strings.Contains(v.T, "q_") {
+			g.assume("true", g.wfFacts(v), "type")
+		}
+		return v
 	}
 	efail("field selection on non-struct %v", x.Go)
 	return Val{}
